@@ -95,16 +95,6 @@ def parse_features(src, fails):
     return None
 
 
-def site_guards(src, fails):
-    flat = re.sub(r"\s+", " ", strip_comments(src))
-    # data_create_arabic: mask_array[i] is the 1-mask of ARABIC_FEATURES[i] (not reachable by a hook
-    # without a font; the API-level check on a generated font covers it when available)
-    if len(re.findall(r"for (\w+) in 0\.\.ARABIC_FEATURES\.len\(\) \{ mask_array\[\1\] = plan\.ot_map\.get_1_mask\(ARABIC_FEATURES\[\1\]\); \}", flat)) != 1:
-        fails.append(("joining_mask_array_fill", "data_create_arabic: `for i in 0..ARABIC_FEATURES.len() { mask_array[i] = plan.ot_map.get_1_mask(ARABIC_FEATURES[i]); }` not found exactly once"))
-    if len(re.findall(r"let mut mask_array = \[0; ARABIC_FEATURES\.len\(\) \+ 1\];", flat)) != 1:
-        fails.append(("joining_mask_array_init", "data_create_arabic: `let mut mask_array = [0; ARABIC_FEATURES.len() + 1];` not found exactly once"))
-
-
 def tag_n(t):
     b = t.encode("latin-1")
     return (b[0] << 24) | (b[1] << 16) | (b[2] << 8) | b[3]
@@ -118,7 +108,6 @@ def table_gen(repo, fails):
     jtypes = parse_jtypes(src, fails)
     table, width = parse_state_table(src, actions, fails)
     feats = parse_features(src, fails)
-    site_guards(src, fails)
     for a in ACTIONS:
         g.defN("act_" + a, actions[a] if actions else 0)
     for j in JTYPES:
